@@ -1,6 +1,6 @@
 (* C07 -- transmitted colours and durations are in protocol range and numerically exact.
    Statements only; proofs live in Num/FloatProofs.v, Num/SweepProofs.v, Num/UnitsQProofs.v,
-   Num/PathsProofs.v.
+   Num/PathsProofs.v, Num/ColorsysQProofs.v, Num/RgbQProofs.v.
 
    Two arithmetics are used, and every statement says which:
      [binary64]  the translated code over PrimFloat -- bit-exact model of what CPython computes;
@@ -11,7 +11,8 @@
    results that needed the 1e-9 tie tolerance). *)
 From Coq Require Import ZArith QArith Bool PrimFloat.
 From Bardolph Require Import Base.PyNum Num.UnitsQ Gen.ParamGen Gen.ColorsysGen Gen.UnitsGen Gen.MachineUnitsGen
-     Num.UnitsFloat Num.FloatProofs Num.SweepDefs Num.SweepProofs Num.UnitsQProofs Num.PathsProofs.
+     Num.UnitsFloat Num.FloatProofs Num.SweepDefs Num.SweepProofs Num.UnitsQProofs Num.PathsProofs
+     Num.ColorsysQProofs Num.RgbQProofs.
 Close Scope Q_scope.
 Open Scope Z_scope.
 
@@ -133,3 +134,27 @@ Theorem C07_ints_pass_65536 : forall r, 0 <= r <= 65535 ->
   param_16 (z2f r) = r /\ py_round (z2f r) = r /\ param_32 (z2f r) = r.
 Proof. exact ints_pass_65536. Qed.
 Print Assumptions C07_ints_pass_65536.
+
+(* (d) [Q] colorsys: converting an rgb colour to hsv and back gives the same colour, for every
+   colour of the unit cube (the full statement, not a partial one) *)
+Theorem C07_hsv_rgb_roundtrip : forall r g b : Q, in01 r -> in01 g -> in01 b ->
+  triple_eq (let '(h, s, v) := rgb_to_hsv_Q r g b in hsv_to_rgb_Q h s v) (r, g, b).
+Proof. exact hsv_rgb_roundtrip. Qed.
+Print Assumptions C07_hsv_rgb_roundtrip.
+
+(* (d) [Q] rgb percentages are sent as the hue/saturation/brightness of the same colour: the
+   transmitted integers are the nearest integers of 65535 * (h, s, v) for an hsv triple that
+   colorsys.hsv_to_rgb maps back to exactly the requested percentages *)
+Theorem C07_rgb_sent_is_same_colour : forall c : color4 Q,
+  (0 <= c0 c)%Q -> (c0 c <= 100)%Q -> (0 <= c1 c)%Q -> (c1 c <= 100)%Q -> (0 <= c2 c)%Q -> (c2 c <= 100)%Q ->
+  exists h s v,
+    ((0 <= h)%Q /\ (h < 1)%Q) /\ in01 s /\ in01 v /\
+    triple_eq (hsv_to_rgb_Q h s v) (c0 c / 100, c1 c / 100, c2 c / 100)%Q /\
+    canonical_color_Q RGB c =
+      mkcolor (param_16_Q (h * 65535)) (param_16_Q (s * 65535)) (param_16_Q (v * 65535)) (param_16_Q (c3 c)) /\
+    nearest_clamped 0 65535 (h * 65535) (param_16_Q (h * 65535)) /\
+    nearest_clamped 0 65535 (s * 65535) (param_16_Q (s * 65535)) /\
+    nearest_clamped 0 65535 (v * 65535) (param_16_Q (v * 65535)) /\
+    nearest_clamped 0 65535 (c3 c) (param_16_Q (c3 c)).
+Proof. exact rgb_sent_is_same_colour. Qed.
+Print Assumptions C07_rgb_sent_is_same_colour.
